@@ -16,12 +16,20 @@ package tableclass
 //@   loop 3 invariant ddMatches(directDescendants, t) && cellScan(t, 0) == cellScan(t, ITER) && len(directTDs) == tdCount(t, ddLen(t))
 //@   loop 3 invariant forall(j, 0 <= j && j < len(directTDs), directTDs[j] == nthTd(t, j) && directTDs[j] != nil)
 
+// getDirectDescendants is proved equal to the definition of the direct-descendant sequence (tableclass.ghost):
+// the filter loop keeps exactly the elements whose nearest enclosing table is t.
 //@ func (*Classifier).getDirectDescendants(t)
-//@   trusted
 //@   requires t != nil
 //@   fresh_assigns elems(ref)
 //@   ensures ddMatches(result, t)
 //@   ensures freshslice(result)
+//@   loop 0 invariant t != nil && nestedT(t) && freshslice(allDescendants) && freshslice(directDescendants) && disjoint(allDescendants, directDescendants) && len(allDescendants) == ebtLen(t, "*")
+//@   loop 0 invariant forall(k, 0 <= k && k < len(allDescendants), allDescendants[k] == ebtAt(t, "*", k) && allDescendants[k] != nil)
+//@   loop 0 invariant len(directDescendants) == cntDir(t, ITER) && forall(j, 0 <= j && j < len(directDescendants), directDescendants[j] == ddAt(t, j))
+//@   loop 1 invariant tblOf(parent) == tblOf(descendant.Parent) && descendant != nil && descendant == allDescendants[ITER]
+//@   loop 1 invariant t != nil && nestedT(t) && freshslice(allDescendants) && freshslice(directDescendants) && disjoint(allDescendants, directDescendants) && len(allDescendants) == ebtLen(t, "*")
+//@   loop 1 invariant forall(k, 0 <= k && k < len(allDescendants), allDescendants[k] == ebtAt(t, "*", k) && allDescendants[k] != nil)
+//@   loop 1 invariant len(directDescendants) == cntDir(t, ITER) && forall(j, 0 <= j && j < len(directDescendants), directDescendants[j] == ddAt(t, j))
 
 //@ func (*Classifier).hasOneOfElements(elements, tags)
 //@   requires forall(i, 0 <= i && i < len(elements), elements[i] != nil)
